@@ -554,6 +554,44 @@ def gen_xopts(rng, value):
   return o
 
 
+def gen_control(rng):
+  k = rng.below(4)
+  css = lambda: [rng.choice(CSS) for _ in range(rng.below(3))]
+  styles = lambda: [[k2, rng.choice(['red', '3px', None])] for k2 in rng.sample(['color', 'margin_top', 'width'], rng.below(3))]
+  if k == 0:
+    return {'op': 'control', 'kind': 'label', 'text': gen_string(rng),
+            'tooltip': gen_string(rng) if rng.chance(0.6) else None,
+            'link': rng.choice(['http://x/y', 'http://x/?a=1&amp;b=2']) if rng.chance(0.3) else None,
+            'target': '_blank' if rng.chance(0.2) else None,
+            'id': rng.choice(['my-id', 'L1']) if rng.chance(0.3) else None,
+            'css': css(), 'styles': styles(), 'interactive': rng.chance(0.3)}
+  if k == 1:
+    return {'op': 'control', 'kind': 'tooltip', 'text': gen_string(rng),
+            'id': 'T1' if rng.chance(0.3) else None, 'css': css(), 'styles': styles()}
+  if k == 2:
+    n = rng.randint(1, 3)
+    total = rng.choice([None, 10, 7])
+    return {'op': 'control', 'kind': 'progress',
+            'names': [rng.choice([gen_string(rng), 'FooBar', 'Succeeded', 'x y']) for _ in range(n)],
+            'values': [rng.randint(0, 3) for _ in range(n)], 'total': total, 'sub_css': [css() for _ in range(n)]}
+  n = rng.randint(1, 3)
+  return {'op': 'control', 'kind': 'tab', 'labels': [gen_string(rng) for _ in range(n)],
+          'tooltips': [gen_string(rng) if rng.chance(0.3) else None for _ in range(n)],
+          'contents': [rng.choice(['<b>c</b>', 'plain', '<div><i>n</i></div>', html_lib.escape(gen_string(rng))])
+                       for _ in range(n)],
+          'selected': rng.below(n), 'left': rng.chance(0.4), 'id': 'TT' if rng.chance(0.3) else None,
+          'css': css(), 'styles': styles(), 'tab_css': [css() for _ in range(n)]}
+
+
+CONTROL_ID = re.compile(r'control-\d+')
+
+
+def canon_ids(html):
+  """Addresses never cross the protocol: control-<id(self)> -> control-<k>, k by first appearance."""
+  seen = {}
+  return CONTROL_ID.sub(lambda m: 'control-%d' % seen.setdefault(m.group(0), len(seen)), html)
+
+
 HTML_FRAGMENTS = ['<b>x</b>', '<span class="a">t</span>', 'plain', '&amp;', '<div><i>n</i></div>', '',
                   '<i>', '</i>', '<', '<div', 'a<b', '<span class=a>x</span>', "<span class='a'>x</span>",
                   '<span  class="a">x</span>', '<span class="a" >x</span>', '<span/>', '<br>', '</ div>',
@@ -689,19 +727,8 @@ class C20(Prop):
                   if cl == 0:
                     o['name'] = h
                   yield {'op': 'render', 'value': v, 'opts': o}
-    for _ in range(60 if quick else 1500):
-      k = rng.below(4)
-      if k == 0:
-        yield {'op': 'control', 'kind': 'label', 'text': gen_string(rng),
-               'tooltip': gen_string(rng) if rng.chance(0.6) else None,
-               'link': 'http://x/y' if rng.chance(0.3) else None}
-      elif k == 1:
-        yield {'op': 'control', 'kind': 'tooltip', 'text': gen_string(rng)}
-      elif k == 2:
-        yield {'op': 'control', 'kind': 'progress',
-               'names': [gen_string(rng) for _ in range(rng.randint(1, 3))], 'total': rng.choice([None, 10])}
-      else:
-        yield {'op': 'control', 'kind': 'tab', 'labels': [gen_string(rng) for _ in range(rng.randint(1, 3))]}
+    for _ in range(160 if quick else 3000):
+      yield gen_control(rng)
 
   # -- model side ---------------------------------------------------------------------------
   def model_request(self, case):
@@ -735,7 +762,58 @@ class C20(Prop):
       for f in ('include_keys', 'exclude_keys'):
         wire_opts[f] = None if o[f] is None else [key_wire(k) for k in o[f]]
       return {'op': 'render', 'opts': wire_opts, 'tree': tree}
+    if op == 'control':
+      return self._control_request(case)
     return None
+
+  def _control_request(self, case):
+    self.setup_impl()
+    from pyglove.core import utils
+    ocps = lambda x: None if x is None else cps(x)
+    kvs = lambda l: [[cps(k), ocps(v)] for k, v in (l or [])]
+
+    def label(text, tooltip=None, link=None, target=None, id=None, tip_id=None, css=(), styles=()):
+      return {'text': cps(text), 'tooltip': ocps(tooltip), 'link': ocps(link), 'target': ocps(target),
+              'id': ocps(id), 'tip_id': ocps(tip_id), 'css': [cps(x) for x in css], 'styles': kvs(styles)}
+
+    k = case['kind']
+    if k == 'label':
+      inter = case.get('interactive', False)
+      lid = case.get('id') or ('control-0' if inter else None)
+      n_auto = 1 if (inter and not case.get('id')) else 0
+      tip_id = ('control-%d' % n_auto) if (inter and case.get('tooltip') is not None) else None
+      return {'op': 'control', 'kind': 'label',
+              'label': label(case['text'], case.get('tooltip'), case.get('link'), case.get('target'), lid, tip_id,
+                             case.get('css', []), case.get('styles', []))}
+    if k == 'tooltip':
+      return {'op': 'control', 'kind': 'tooltip', 'text': cps(case['text']), 'id': ocps(case.get('id')),
+              'css': [cps(x) for x in case.get('css', [])], 'styles': kvs(case.get('styles', []))}
+    if k == 'progress':
+      names, total = case['names'], case['total']
+      values = case.get('values') or [0] * len(names)
+      sub_css = case.get('sub_css') or [[] for _ in names]
+      subs = [{'css_name': cps(utils.camel_to_snake(n, '-')),
+               'width': None if total is None else cps('%s' % format(v / total, '.0%')),
+               'id': cps('control-%d' % i), 'css': [cps(x) for x in sub_css[i]]}
+              for i, (n, v) in enumerate(zip(names, values))]
+      done = sum(values)
+      text = 'n/a' if total is None else '%s (%d/%d)' % (format(done / total, ' .1%'), done, total)
+      tip = 'Not started' if total is None else '\n'.join(
+          '%s: %s (%d/%d)' % (n, format(v / total, '.1%'), v, total) for n, v in zip(names, values))
+      n = len(names)
+      return {'op': 'control', 'kind': 'progress', 'subs': subs,
+              'label': label(text, tip, id='control-%d' % n, tip_id='control-%d' % (n + 1), css=['progress-label'])}
+    cid = case.get('id')
+    base = cid or 'control-0'
+    child = lambda c: cid if cid else '%s-%s' % (base, c)
+    tips = case.get('tooltips') or [None] * len(case['labels'])
+    contents = case.get('contents') or ['<b>c</b>'] * len(case['labels'])
+    tab_css = case.get('tab_css') or [[] for _ in case['labels']]
+    return {'op': 'control', 'kind': 'tab', 'ctl_id': cps(base), 'bg_id': cps(child('button-group')),
+            'cg_id': cps(child('content-group')), 'left': bool(case.get('left')), 'selected': case.get('selected', 0),
+            'css': [cps(x) for x in case.get('css', [])], 'styles': kvs(case.get('styles', [])),
+            'tabs': [{'label': label(l, tips[i]), 'content': cps(contents[i]), 'css': [cps(x) for x in tab_css[i]],
+                      'id': cps(child(str(i)))} for i, l in enumerate(case['labels'])]}
 
   @staticmethod
   def modelled(o):
@@ -1066,24 +1144,42 @@ class C20(Prop):
 
     def build(f):
       k = case['kind']
+      st = lambda l: {a: b for a, b in (l or [])}
       if k == 'label':
         return controls.Label(f(case['text']), tooltip=None if case['tooltip'] is None else f(case['tooltip']),
-                              link=case['link'])
+                              link=case['link'], target=case.get('target'), id=case.get('id'),
+                              css_classes=list(case.get('css', [])), styles=st(case.get('styles')),
+                              interactive=case.get('interactive', False))
       if k == 'tooltip':
-        return controls.Tooltip(f(case['text']), for_element='.x')
+        return controls.Tooltip(f(case['text']), for_element='.x', id=case.get('id'),
+                                css_classes=list(case.get('css', [])), styles=st(case.get('styles')))
       if k == 'progress':
-        return controls.ProgressBar(subprogresses=[controls.SubProgress(f(n)) for n in case['names']],
-                                    total=case['total'])
-      return controls.TabControl([controls.Tab(f(l), pg.Html('<b>c</b>')) for l in case['labels']])
+        values = case.get('values') or [0] * len(case['names'])
+        sub_css = case.get('sub_css') or [[] for _ in case['names']]
+        return controls.ProgressBar(
+            subprogresses=[controls.SubProgress(f(n), v, css_classes=list(sub_css[i]))
+                           for i, (n, v) in enumerate(zip(case['names'], values))],
+            total=case['total'])
+      tips = case.get('tooltips') or [None] * len(case['labels'])
+      contents = case.get('contents') or ['<b>c</b>'] * len(case['labels'])
+      tab_css = case.get('tab_css') or [[] for _ in case['labels']]
+      return controls.TabControl(
+          [controls.Tab(controls.Label(f(l), tooltip=None if tips[i] is None else f(tips[i])),
+                        pg.Html(contents[i]), css_classes=list(tab_css[i]))
+           for i, l in enumerate(case['labels'])],
+          selected=case.get('selected', 0), tab_position='left' if case.get('left') else 'top',
+          id=case.get('id'), css_classes=list(case.get('css', [])), styles=st(case.get('styles')))
 
     try:
       h = build(lambda s: s).to_html_str(content_only=True)
       b = build(lambda s: 'x' * len(s)).to_html_str(content_only=True)
     except Exception as e:   # pylint: disable=broad-except
       return {'error': type(e).__name__, 'message': str(e)[:200]}
+    h = canon_ids(h)
     tree, why = strict_parse(h)
     btree, bwhy = strict_parse(b)
-    out = {'why': why, 'benign_ok': btree is not None, 'ok': tree is not None}
+    out = {'why': why, 'benign_ok': btree is not None, 'ok': tree is not None,
+           'model': {'html': h, 'doc': None if tree is None else strip_doc(tree)}}
     if tree is not None and btree is not None:
       sk = lambda t: [[n[0], [k for k, _ in n[1]], sk(n[2])] for n in t if isinstance(n, list)]
       out['skeleton_equal'] = sk(tree) == sk(btree)
@@ -1093,6 +1189,8 @@ class C20(Prop):
       out['missing'] = [w for w in want if w and w not in texts]
       if case['kind'] == 'label' and case['tooltip']:
         out['missing'] += [w for w in [case['tooltip']] if w not in texts]
+      if case['kind'] == 'tab':
+        out['missing'] += [w for w in (case.get('tooltips') or []) if w and w not in texts]
     return out
 
   # -- comparison ----------------------------------------------------------------------------
@@ -1209,7 +1307,8 @@ class C20(Prop):
       if isinstance(case['opts'].get('name'), str):
         ss.append(case['opts']['name'])
       return any(has_meta(s) for s in ss)
-    return any(has_meta(s) for s in [case.get('text') or ''] + case.get('names', []) + case.get('labels', []))
+    return any(has_meta(s) for s in [case.get('text') or '', case.get('tooltip') or ''] + case.get('names', [])
+               + case.get('labels', []) + [t or '' for t in case.get('tooltips') or []])
 
   def describe(self, case, out):
     op = case['op']
